@@ -25,7 +25,9 @@ def field_row(field):
     mark = "X" if field["empty"] else ""
     kind = field["t"]
     if kind == "Integer":
-        return ["F", field["name"], "", mark, "", "Integer", "%d...%d" % (number(field["lo"]), number(field["hi"]))]
+        rule = {"none": "%d...%d" % (number(field["lo"]), number(field["hi"])), "lo": "...%d" % number(field["hi"]),
+                "hi": "%d..." % number(field["lo"])}[field.get("open", "none")]
+        return ["F", field["name"], "", mark, "", "Integer", rule]
     if kind == "Decimal":
         def spell(limit, digit):
             before, after = limit
@@ -130,7 +132,12 @@ def _job_spelled(vec):
         if column["notnull"] != (not field["empty"]):
             problems.append("%s: is %s but the field %s be empty" % (where, "NOT NULL" if column["notnull"] else "nullable",
                                                                       "may" if field["empty"] else "must not"))
-        if field["t"] == "Integer":
+        if field["t"] == "Integer" and field.get("open", "none") != "none":
+            # no limit on one side: the property asks nothing of the type; the model names the dialect's default integer type
+            if column["type"] != predicted["type"]:
+                problems.append("%s: must be the default integer type %s for a range without %s limit" % (
+                    where, predicted["type"], "lower" if field["open"] == "lo" else "upper"))
+        elif field["t"] == "Integer":
             lo, hi = number(field["lo"]), number(field["hi"])
             if not (holds(vec["dialect"], column, lo) and holds(vec["dialect"], column, hi)):
                 adjusted = [v if v >= 0 else -(v + 1) for v in (lo, hi)]
